@@ -219,7 +219,7 @@ PROPS = {
         "title": "the empty estimator is an exact identity of merge; lengths add exactly",
         "mc": [MC_HM, MC_MM, MC_W, MC_C, MC_MERGE],
         "replay": [gen_pair("Covariance", "tree", "E10:E10,E5:E10,E0:E0", maxlen=("3", "4")), gen_pair("Weighted", "tree", "E10:W1,E0:W0", maxlen=("3", "4")), gen_h("hist", 2, depth=("3", "4")), gen_h("hist", 3), gen_mm("hist", depth=("3", "4")), gen_pair("Weighted", "hist", "E0:W0,E5:W2,E10:W1", depth=("3", "4")), gen_pair("Covariance", "hist", "E0:E0,E3:E5,E10:E10,E5:E10", depth=("3", "4")), gen_hist(ALLM, "E0,E3,E5,E10"), gen_tree(ALLM, "E0")],
-        "trace": [tr_h(3), TR_LEN],
+        "trace": [tr_h(3, n=("5000", "20000")), TR_LEN],
         "direct": [long_job("Mean,Variance,Skewness,Kurtosis,Moments4,M6", "E0", max_n="1000")],
         "rule": "every add/merge/clone/fresh/checkpoint history to the depth bound over two slots; at every merge the "
                 "destination's and source's full accessor vectors are compared bit for bit before/after",
@@ -246,7 +246,7 @@ PROPS = {
         "replay": [GEN_INGEST, gen_h("hist", 2, depth=("3", "4")), gen_h("hist", 3), gen_pair("Weighted", "tree", "E0:W0,E6:W1,E7:W2,E8:W0,E9:W1,EM1:W0,E14:W1,E7:W1,E14:W0", maxlen=("3", "4")), gen_pair("Weighted", "seq", "EM1:W0,EM1:W2", maxlen=("4", "5")), gen_pair("Covariance", "tree", "E6:E7,E8:E9,E9:E6,EM1:EM1,E14:E14", maxlen=("3", "4")), gen_seq(ALLM, E09 + ",EM1"), gen_tree(ALLM, "E0,E4,E6,E7,E8,E9,EM1,E14"), gen_hist(ALLM, "E6,E7,E8,E9,EM1")],
         "direct": [long_job("Mean,Variance,Skewness,Kurtosis,Moments4,M6,M10", "E0,E4,E6,E7,E8,E9,E10"), HIST_BIG],
         "apalache": [{"module": "Ind_Variance", "skip": (True, False)}, {"module": "Ind_EffLen", "skip": (True, False)}],
-        "trace": [tr_h(3)],
+        "trace": [tr_h(3, n=("5000", "20000"))],
         "rule": "all behaviours of C01/C02 replayed under embeddings without any conditioning bound (one-ulp spreads at 2^52, "
                 "denormals, 1e149, offsets 1e15 spreads); sign and range conditions on every observation",
         "bounds": {"quick": "L <= 5; tree L <= 4", "thorough": "L <= 7; tree L <= 5"},
@@ -259,7 +259,7 @@ PROPS = {
         "mc": [MC_MERGE],
         "replay": [gen_h("hist", 2, depth=("3", "4")), gen_h("hist", 1), gen_q("big", "E0,E5,E16", maxlen=("7", "8")), gen_q("small", "E0,E16"), gen_mm("hist", depth=("3", "4")), gen_pair("Weighted", "hist", "E0:W0,E5:W2,E16:W4", depth=("4", "4")), gen_pair("Covariance", "hist", "E0:E0,E3:E5,E16:E16", depth=("3", "4")), gen_hist(ALLM, "E0,E3,E5,E16", depth=("5", "6"), slots=("{1}", "{1}")), gen_hist(ALLM, "E0,E5,E16")],
         "trace": [TR_Q, TR_MM],
-        "direct": [{"cmd": "direct", "family": "histserde", "args": {"reps": ("20", "200")}}],
+        "direct": [{"cmd": "direct", "family": "histserde", "args": {"reps": ("20", "200")}}, {"cmd": "direct", "family": "serdelong", "args": {"n": ("300", "3000")}}],
         "rule": "every history with checkpoints at every position; two real executions (with / without the JSON round trip) "
                 "compared bit for bit on every accessor",
         "bounds": {"quick": "depth <= 5 one slot, depth <= 4 two slots", "thorough": "depth <= 6 one slot, depth <= 5 two slots"},
@@ -391,7 +391,7 @@ PROPS = {
         "title": "histogram merge, +=, *=, reset and views are exact bin-wise operations",
         "mc": [MC_HM],
         "replay": H_HIST,
-        "trace": [tr_h(2), tr_h(3), tr_h(10)],
+        "trace": [tr_h(2), tr_h(3, n=("5000", "20000")), tr_h(10)],
         "direct": [HIST_BIG],
         "rule": "every history of build/add/merge/+=/*=/reset/clone/checkpoint over two slots and 4-6 edge vectors (equal, numerically "
                 "equal with different zero signs, different, infinite, with empty bins) to the depth bound: counts exact, panics "
